@@ -52,6 +52,17 @@ theorem UPres.setPoolKey {s : St} {sym : String} {p p' : Pool} (hg : s.pools.get
   · subst h; simp [St.getPool, hg, hu]
   · simp [poolKey_ne h, St.getPool]
 
+/-- the same for a raw store key -/
+theorem UPres.setKey {s : St} {k : String} {p p' : Pool} (hg : s.pools.get k = some p)
+    (hu : p'.units = p.units) : UPres s { s with pools := s.pools.set k p' } := by
+  refine ⟨rfl, fun h => nodupKeys_set _ _ h, ?_⟩
+  intro sym'
+  show ((s.pools.set k p').get (poolKey sym')).map (·.units) = _
+  rw [get_set]
+  by_cases h : k = poolKey sym'
+  · subst h; simp [St.getPool, hg, hu]
+  · simp [h, St.getPool]
+
 theorem UPres.setBal (s : St) (a d : String) (v : Nat) : UPres s (s.setBal a d v) :=
   UPres.of_frame rfl rfl
 
@@ -93,15 +104,14 @@ theorem removeRowanFromPools_upres (s : St) (tots : AList Nat) : UPres s (remove
   unfold removeRowanFromPools
   apply UPres.foldl
   intro s b
-  obtain ⟨sym, sub⟩ := b
-  simp only
-  cases hg : s.pools.get (poolKey sym) with
+  unfold deductRowan
+  cases hg : s.pools.get b.1 with
   | none => exact UPres.refl s
   | some p =>
     simp only
     split
     · exact UPres.refl s
-    · exact UPres.setPoolKey hg rfl
+    · exact UPres.setKey hg rfl
 
 theorem lppdHook_upres {s s' : St} (h : lppdHook s = .ok s') : UPres s s' := by
   unfold lppdHook at h
@@ -147,7 +157,7 @@ theorem bumpRpnd_upres {s s' : St} {tots : AList Nat} (h : bumpRpnd s tots = .ok
     · rename_i p hg
       obtain ⟨_, _, hb⟩ := bind_ok hb
       cases hb
-      exact UPres.setPoolKey hg rfl
+      exact UPres.setKey hg rfl
 
 theorem get_map_val {α : Type} (f : α → α) (l : AList α) (k : String) :
     AList.get (l.map (fun e => (e.1, f e.2))) k = (AList.get l k).map f := by
